@@ -70,6 +70,8 @@ inductive Cond where
   | nameInInfo
   /-- `object_name in object()._get_sync_trait_info()[""]` (`true`) / `name in …` (`false`) -/
   | lockedAtPartner (partnerName : Bool)
+  /-- `object() is None`: the partner has been collected -/
+  | partnerDead
   /-- `isinstance(index, slice)` -/
   | indexIsSlice
   /-- `getattr(object(), object_name) is getattr(self, name)` -/
@@ -144,6 +146,10 @@ def evalCond (p : Pair) (pay : Payload α) (cur : Option Pair) (s : St α) : Con
     | some q =>
       if q.1 ∈ s.k.dead then .error .attributeError
       else .ok (decide ((q.1, if pn then q.2 else p.2) ∈ s.k.w.locked))
+  | .partnerDead =>
+    match cur with
+    | none => .error .other
+    | some q => .ok (decide (q.1 ∈ s.k.dead))
   | .indexIsSlice => .ok (match s.idx with | .slice _ => true | .int _ => false)
   | .sameListObject => .ok false
   | .eventAdded =>
